@@ -69,14 +69,18 @@ def main():
         runner = shared_runner if ncase[0] % 3 == 0 else m.ScenarioRunnerNoTrade()
         popov = 7.0e6 if ncase[0] % 5 == 0 else None
         sopt = {"scale": "country"} if popov is None else {"scale": "country", "population": popov}
+        passed = list(lst)
         try:
             with contextlib.redirect_stdout(io.StringIO()):
                 world, net_pop, net_pop_fed, results = runner.run_model_no_trade(
-                    title="agg", create_pptx_with_all_countries=False, scenario_option=dict(sopt), countries_list=list(lst),
+                    title="agg", create_pptx_with_all_countries=False, scenario_option=dict(sopt), countries_list=passed,
                     return_results=True)
         except BaseException as ex:  # noqa
             bad("Aggregate:exception:%s" % form, dict(case=c, exc=repr(ex)[:160]))
             continue
+        if passed != lst:
+            # (the selection is the caller's: the yaml front end and run_many_options hand the same list to one run after another)
+            bad("SelectionExact:%s:callers-list-rewritten" % form, dict(case=c, before=lst, after=passed))
         want_sel = sorted(c["selected"])
         ran_ok = [x for x in want_sel if x != failing]
         if sorted(called) != want_sel:
